@@ -97,6 +97,10 @@ def run(chk, replay=None):
                             "32-bit words are covered by the empty word, singles, pairs, complements, all-ones and seeded random words, not exhaustively",
                             "agreement of the declared bit positions with MS-CIFS/MS-SMB/MS-ADTS is reported as drift (wire values belong to C05), not as a violation",
                             "non-success NT status = any declared value other than 0x00000000"]
+        # ---- specification growth (drift only)
+        from checks import g03
+        g03.run_growth(chk, tier, chk.seed)
+        chk.assumptions.append("growth (drift only): ADAttrs.tla / LDAPHelpers.tla -- AD attribute tables, NTSTATUS layout, pure LDAP/Kerberos/DNS helpers (DESIGN 13.7 G03)")
     finally:
         if jopt is None:
             os.environ.pop("_JAVA_OPTIONS", None)
